@@ -115,7 +115,8 @@ func (e *ValidationError) Error() string {
 
 // GetFlatErrorMap gets a map of error messages mapped by field
 func (e *ValidationError) GetFlatErrorMap() map[string][]string {
-	flatMap := e.errorMap
+	// flatten into a fresh map: merging into e.errorMap itself would add the children's messages to the receiver on every call (and panic when it is nil)
+	flatMap := prefixKeys(e.errorMap, "")
 	for k, v := range e.children {
 		childErrors := getFlattenedMap(k, v, false)
 		for ek, e := range childErrors {
@@ -127,7 +128,7 @@ func (e *ValidationError) GetFlatErrorMap() map[string][]string {
 
 // GetFlatWarningMap gets a map of warning messages mapped by field
 func (e *ValidationError) GetFlatWarningMap() map[string][]string {
-	flatMap := e.warningMap
+	flatMap := prefixKeys(e.warningMap, "")
 	for k, v := range e.children {
 		childErrors := getFlattenedMap(k, v, true)
 		for ek, e := range childErrors {
